@@ -20,6 +20,7 @@ package plugin
 //@ type Client
 //@   guarded_by l: exited, runner, client, processKilled, address, ghost:launched   [C20.guard] [C19.once]
 //@   inv inv_client(this)   [C19.once] [C03.d]
+//@   publish_once address   [C20.guard]
 //@   rely l: old(this.address) != nil ==> this.address == old(this.address)   [C19.addr]
 //@   rely l: old(this.client) != nil ==> this.client == old(this.client)   [C19.client]
 //@   rely l: launched[this] >= old(launched[this])   [C19.once]
@@ -1481,3 +1482,35 @@ package plugin
 //@   loop#1 invariant !eff_has(seq(out), "PLUGIN_CLIENT_CERT") && !eff_has(seq(out), "PLUGIN_MULTIPLEX_GRPC")
 //@   ensures !eff_has(seq(result), "PLUGIN_CLIENT_CERT") && !eff_has(seq(result), "PLUGIN_MULTIPLEX_GRPC")   [C17.host]
 //@   ensures len(result) == 0 || fresh(result)
+
+// Functions that had no contract until the third seeding round: the host's gRPC dialer, the
+// net/rpc accept loop, the MuxBroker convenience server
+
+//@ func (*Client).dialer
+//@   nopanic [C03.d] [C12.total]
+//@   bounded peer-dead [C03.c]
+//@   requires c.config != nil && c.address != nil && c.logger != nil
+//@   requires c.grpcMuxer != nil ==> c.grpcMuxer.session != nil
+//@   modifies c.grpcMuxer, fields(c.grpcMuxerOnce), conns_open, yopens, yaccepts, creg, heap_fresh, $LOG
+//@   at call (*Client).getGRPCMuxer#1 assert arg0 == c.address   [C07.dial] [C08.dial]
+//@   at call netAddrDialer#1 assert arg0 == c.address   [C07.dial]
+//@   at call tls.Client#1 assert c.protocol == "netrpc" && arg1 == c.config.TLSConfig && arg1 != nil   [C12.wrap] [C14.tls]
+//@   ensures result1 != nil ==> result0 == nil
+
+//@ func (*RPCServer).Serve
+//@   nopanic [C04.total] [C18.total]
+//@   bounded peer-dead [C03.c]
+//@   wait call (net.Listener).Accept#1 the accept loop ends when the listener is closed (Serve's caller closes it on every return)
+//@   requires lis != nil && !held(s.lock)
+//@   modifies heap
+//@   at go#1 assert arg0 == s   [C14.proto]
+//@   ensures !held(s.lock) && s.DoneCh == nil   [C04.done]
+
+//@ func (*MuxBroker).AcceptAndServe
+//@   nopanic [C06.total]
+//@   bounded peer-dead [C09.timer]
+//@   requires !held(m.Mutex)
+//@   modifies heap, pkey, ch_owner, tokens, conns_open, firstw
+//@   after call (*MuxBroker).Accept#1 bind aas: Iface := ret0
+//@   at call (*MuxBroker).Accept#1 assert arg0 == id   [C06.serve]
+//@   at call serve#1 assert arg0 == aas && arg1 == "Plugin" && arg2 == v   [C06.serve]
